@@ -167,7 +167,41 @@ def run(ctx):
         ob4.instance("direct command address", [key(nk(l.value)) for l in direct])
         ob4.instance("latched command address", [str(l) for l in lat_addr])
         if not direct or key(nk(direct[0].value)) != want or la != want:
-            ob4.refute("address", "command address is %s (direct) / %s (latched), expected avalon.address - (base_address >> 2) for a 32-bit port" % ([key(nk(l.value)) for l in direct], la), None)
+            # another arrangement (e.g. the bus address latched / counted first and ONE shared subtractor): every command-address driver must still subtract the
+            # base offset from something that comes from the bus address
+            offk = key(Op(">>", (Sym("base_address"), Const(2))))
+            alld = [l for l in v.fsm_leaves(f) if l.kind == "assign" and key(l.target) == "port.cmd.addr"] + \
+                   [l for l in v.leaves if l.fsm is None and l.kind == "assign" and key(l.target) == "port.cmd.addr" and l.inst == ""]
+            verdicts = []
+            for l in alld:
+                ln = lin(nk(l.value))
+                if ln is None:
+                    verdicts.append(None)
+                    continue
+                co = {("*".join(m_) if m_ else "1"): c_ for m_, c_ in ln.t.items()}
+                has_off = co.get(offk) == -1
+                others = [k_ for k_, c_ in co.items() if k_ not in (offk, "1")]
+                def from_bus(k_, dep=0):
+                    if k_ == "avalon.address":
+                        return True
+                    if dep > 4:
+                        return False
+                    ds_ = v.drivers(k_)
+                    return bool(ds_) and all(isinstance(d_.value, V) and all(from_bus(x_, dep + 1) or x_ == k_ or (not v.drivers(x_) and not x_.startswith(("avalon.", "port."))) for x_ in support(d_.value))
+                                             for d_ in ds_)
+                if has_off and len(others) == 1 and co[others[0]] == 1 and from_bus(others[0]):
+                    verdicts.append(True)
+                elif not has_off and any(from_bus(k_) for k_ in others) and offk not in " ".join(support(nk(l.value))):
+                    verdicts.append(False)
+                else:
+                    verdicts.append(None)
+            if alld and all(x_ is True for x_ in verdicts):
+                ob4.instance("command address (shared subtractor form)", [key(nk(l.value))[:100] for l in alld])
+            elif any(x_ is False for x_ in verdicts):
+                ob4.refute("address", "command address is %s (direct) / %s (latched): the base address offset (base_address >> 2 for a 32-bit port) is not subtracted" %
+                           ([key(nk(l.value)) for l in direct], la), None)
+            else:
+                ob4.unknown("command address %s is not of a form this rule reads" % [key(nk(l.value))[:80] for l in alld])
     ctx.assume("stall interleavings and data values are not decided; the width-adjusting converter in front of the bridge is covered by C07")
 
 
